@@ -48,7 +48,7 @@ B = "OxiddModel.Bcdd.Properties"
 Z = "OxiddModel.Zbdd.Properties"
 SPEC = {
  "C01": ([("OxiddModel.Bdd.PropertiesHistory", r"inv_|canonical|history_semantics|swap_|reorder_|set_var_order|addVars"), "OxiddModel.Bdd.Properties", (B, r"canonical|unique|sat_valid"), (Z, r"canonical|unique|sat_valid")], [("c01", ["bdd", "bcdd", "zbdd"])]),
- "C02": ([(GEN + "ObBdd", r"enums_bdd"), (GEN + "ObBcdd", r"enums_bcdd"), (GEN + "ObZbdd", r"enums_zbdd"), "OxiddModel.Bdd.Properties", (B, r"not_sem|apply|Bin_sem|op_sem|ite|const_var|eval_sem|cofactors|var_nf"),
+ "C02": ([GEN + "ObTerminalBdd", (GEN + "ObBdd", r"enums_bdd"), (GEN + "ObBcdd", r"enums_bcdd"), (GEN + "ObZbdd", r"enums_zbdd"), "OxiddModel.Bdd.Properties", (B, r"not_sem|apply|Bin_sem|op_sem|ite|const_var|eval_sem|cofactors|var_nf"),
           (Z, r"zbdd_not|zbdd_apply|op_sem|zbdd_ite|zbdd_var|zbdd_cofactors|bool_view")], [("c02", ["bdd", "bcdd", "zbdd"])]),
  "C03": ([("OxiddModel.Bdd.PropertiesHistory", r"inv_|stored_nodes|l2v_bij|nodecount|step_|gc_"), "OxiddModel.Bdd.Properties", "OxiddModel.Bdd.PropertiesC12", (B, r"_nf$|reduce"), (Z, r"_nf|nf'")], [("c03", ["bdd", "bcdd", "zbdd"])]),
  "C04": ([(GEN + "ObBcdd", r"dispatch"), "OxiddModel.Bdd.PropertiesC04", (B, r"quant|restrict|applyQuant|dispatch|subst|varset|cube_sem|qsem"), (Z, r"restrict")], [("c04", ["bdd", "bcdd", "zbdd"])]),
@@ -100,7 +100,7 @@ for pid, (mods, suites) in SPEC.items():
     print(pid, len(ms), "modules", len(ts), "theorems", [s["name"] + ("+model" if "proto" in s else "") for s in streams], "DISABLED" if not ts else "")
 
 # obligations over the extracted tables for configs written by the area builders
-EXTRA = {"C10": [GEN + "ObMtbdd"], "C11": [GEN + "ObTdd"], "C17": [GEN + "ObTbl"], "C05": [GEN + "ObGc", (GEN + "ObOrderings", r"rc_|free_after")], "C09": [(GEN + "ObZbdd", r"enums_zbdd")]}
+EXTRA = {"C10": [GEN + "ObMtbdd"], "C11": [GEN + "ObTdd", GEN + "ObTerminalTdd"], "C17": [GEN + "ObTbl"], "C05": [GEN + "ObGc", (GEN + "ObOrderings", r"rc_|free_after")], "C09": [(GEN + "ObZbdd", r"enums_zbdd")]}
 for pid, mods in EXTRA.items():
     p = os.path.join(ROOT, "checks", pid + ".json")
     if not os.path.exists(p):
